@@ -1122,7 +1122,8 @@ func leafWith(r *h.Run, ty string, pattern int, zeroP int) leafSrc {
 		ls.Flag = &flagSrc{Default: *fd, Style: r.Rng.Intn(10)}
 	}
 	if ls.Flag != nil && r.Rng.Intn(3) == 0 {
-		withMembers(r, ty, ls.Flag, r.Rng.Intn(len(memberTemplates)), fresh)
+		// (templates with members set to DIFFERENT values are left to the deterministic block: their winner is not determined)
+		withMembers(r, ty, ls.Flag, r.Rng.Intn(len(memberTemplates)), false, fresh)
 	}
 	return ls
 }
@@ -1131,11 +1132,11 @@ func leafWith(r *h.Run, ty string, pattern int, zeroP int) leafSrc {
 var memberTemplates = []string{"ns", "us", "nus", "sn", "nnsu", "ss", "unss", "su", "nsn", "uuns", "sS", "nSus", "nu", "un", "nnu", "unu"}
 
 // withMembers turns a binding into a set of flags following a template compatible with it (a set flag needs an s)
-func withMembers(r *h.Run, ty string, f *flagSrc, start int, fresh func(string) *value) {
+func withMembers(r *h.Run, ty string, f *flagSrc, start int, distinct bool, fresh func(string) *value) {
 	for k := 0; k < len(memberTemplates); k++ {
 		t := memberTemplates[(start+k)%len(memberTemplates)]
 		hasSet := strings.ContainsAny(t, "sS")
-		if hasSet != (f.Set != nil) {
+		if hasSet != (f.Set != nil) || (!distinct && strings.Contains(t, "S")) {
 			continue
 		}
 		f.Members = nil
@@ -1281,7 +1282,7 @@ func deterministic(r *h.Run) []scenario {
 			ls.Flag.Style = i % 4
 			ls.Flag.Members = nil
 			seen := map[string]bool{}
-			withMembers(r, l.Ty, ls.Flag, ti, func(src string) *value {
+			withMembers(r, l.Ty, ls.Flag, ti, true, func(src string) *value {
 				for k := 0; ; k++ {
 					v := genValue(r, l.Ty, src, 0)
 					if !seen[render(l.Ty, v)] || k > 20 {
@@ -1454,7 +1455,11 @@ func main() {
 	}
 	r := h.Init("C15")
 	r.Imports = []string{"GU.C15.Model"}
-	if bs, err := os.ReadFile(filepath.Join("..", "coq", "C15", "Shapes.v")); err == nil && string(bs) == shapesFile() {
+	shapesPath := filepath.Join("..", "coq", "C15", "Shapes.v")
+	if root := os.Getenv("VERIF_ROOT"); root != "" {
+		shapesPath = filepath.Join(root, "coq", "C15", "Shapes.v")
+	}
+	if bs, err := os.ReadFile(shapesPath); err == nil && string(bs) == shapesFile() {
 		compactSchemas = true
 		r.Imports = append(r.Imports, "GU.C15.Shapes")
 	} else {
